@@ -390,6 +390,62 @@ theorem C13_vacuous_band_base_rate_jump (f : Fmt) :
   rw [if_neg hg, le_div_iff₀ (by nlinarith)]
   nlinarith
 
+/-- BOTH operands in the vacuous band `[1-2ε, 1]` (cumulative): both families take their both-vacuous
+    guard arm for the base rate and return the MEAN `(a₁ + a₂)/2` — the base rates agree exactly on the
+    whole both-vacuous band (contrast `C13_vacuous_band_base_rate_jump`, where only one operand is in the
+    band), although the masses differ: the multinomial result is the vacuous simplex `(0, 0, 1)`, the
+    binomial formula keeps masses up to `4ε` away from it. -/
+theorem C13_both_vacuous_band_base_rate_cfuse (h₁ : BWF b₁ d₁ u₁ a₁) (h₂ : BWF b₂ d₂ u₂ a₂)
+    (hv₁ : 1 - 2 * f.eps ≤ u₁) (hv₂ : 1 - 2 * f.eps ≤ u₂) :
+    ∃ b d u b' d' u' : ℚ,
+      BOp.cfuse (bop b₁ d₁ u₁ a₁ : BOp (XQ f)) (bop b₂ d₂ u₂ a₂) = .ok (bop b d u ((a₁ + a₂) / 2)) ∧
+      BOp.ofOpinion (fuse .acm false (BOp.toOpinion (bop b₁ d₁ u₁ a₁ : BOp (XQ f)))
+          (BOp.toOpinion (bop b₂ d₂ u₂ a₂ : BOp (XQ f)))) = bop b' d' u' ((a₁ + a₂) / 2) ∧
+      b' = 0 ∧ d' = 0 ∧ u' = 1 ∧
+      |b - b'| ≤ 4 * f.eps ∧ |d - d'| ≤ 4 * f.eps ∧ |u - u'| ≤ 4 * f.eps := by
+  have hl := eps_lt f
+  have v1 : GVac f u₁ := (GVac_iff (BWF.u_le_one h₁)).mpr hv₁
+  have v2 : GVac f u₂ := (GVac_iff (BWF.u_le_one h₂)).mpr hv₂
+  have hnd : ¬ (u₁ = 0 ∧ u₂ = 0) := fun h => by linarith [h.1]
+  have hc := BOp.cfuse_fin_ok (f := f) h₁ h₂ hnd
+  have ea : cfA f u₁ a₁ u₂ a₂ = (a₁ + a₂) / 2 := by
+    unfold cfA; rw [if_pos ⟨v1, v2⟩]
+  rw [ea] at hc
+  have hm := ofOpinion_fuse (f := f) (op := .acm) (by decide) h₁ h₂
+  rw [simplexQ_acm_vac_left _ _ u₂ v1, baseRateQ_acm_vac_left _ _ u₂ v1, if_pos v2, if_pos v2,
+    short_eq (fun i h => by unfold meanA; rw [h]; ring)] at hm
+  have em : meanA (![a₁, 1 - a₁] : Fin 2 → ℚ) ![a₂, 1 - a₂] 0 = (a₁ + a₂) / 2 := by simp [meanA]
+  rw [em] at hm
+  obtain ⟨k1, k2, k3⟩ := band_bound_vac h₁ h₂ hv₁ hv₂
+  exact ⟨_, _, _, _, _, _, hc, hm, rfl, rfl, rfl, k1, k2, k3⟩
+
+/-- BOTH operands in the vacuous band `[1-2ε, 1]` (weighted), ANY weight argument `ga` (it is only read in the
+    both-dogmatic arm): both families take their both-vacuous guard arm and return the same opinion, the
+    vacuous opinion `(0, 0, 1)` over the MEAN base rate `(a₁ + a₂)/2`.  Here the two families agree on the
+    whole result, not only on the base rate. -/
+theorem C13_both_vacuous_band_base_rate_wfuse (h₁ : BWF b₁ d₁ u₁ a₁) (h₂ : BWF b₂ d₂ u₂ a₂)
+    (hv₁ : 1 - 2 * f.eps ≤ u₁) (hv₂ : 1 - 2 * f.eps ≤ u₂) (ga : XQ f) :
+    BOp.wfuse (bop b₁ d₁ u₁ a₁ : BOp (XQ f)) (bop b₂ d₂ u₂ a₂) ga = .ok (bop 0 0 1 ((a₁ + a₂) / 2)) ∧
+    BOp.ofOpinion (fuse .wgh false (BOp.toOpinion (bop b₁ d₁ u₁ a₁ : BOp (XQ f)))
+        (BOp.toOpinion (bop b₂ d₂ u₂ a₂ : BOp (XQ f)))) = bop 0 0 1 ((a₁ + a₂) / 2) := by
+  have hl := eps_lt f
+  have v1 : GVac f u₁ := (GVac_iff (BWF.u_le_one h₁)).mpr hv₁
+  have v2 : GVac f u₂ := (GVac_iff (BWF.u_le_one h₂)).mpr hv₂
+  have nd1 : ¬ GDog f u₁ := fun d => d.not_GVac v1
+  have hd' : ¬ (GD f u₁ ∧ GD f u₂) := fun h => nd1 h.1
+  refine ⟨BOp.wfuse_fin_vac h₁ h₂ hd' ⟨v1, v2⟩ ga, ?_⟩
+  rw [ofOpinion_fuse (by decide) h₁ h₂]
+  have hS : simplexQ f .wgh (![b₁, d₁] : Fin 2 → ℚ) u₁ ![b₂, d₂] u₂ = (fun _ => 0, 1) := by
+    unfold simplexQ; simp [nd1, v1, v2]
+  have hA : baseRateQ f .wgh false (![a₁, 1 - a₁] : Fin 2 → ℚ) u₁ ![a₂, 1 - a₂] u₂
+      = meanA ![a₁, 1 - a₁] ![a₂, 1 - a₂] := by
+    unfold baseRateQ
+    simp only [Bool.false_eq_true, if_false]
+    rw [if_neg (fun h => nd1 h.1), if_pos ⟨v1, v2⟩,
+      short_eq (fun i h => by unfold meanA; rw [h]; ring)]
+  rw [hS, hA]
+  simp [meanA]
+
 /-! ### 7. the former counterexample of the `ulps_eq!` shortcut -/
 
 /-- REPAIRED FINDING (formerly `C13_shortcut_differs`, the necessity of `hsc`).  Base rates `a₁ = 1/2`,
@@ -476,6 +532,41 @@ example : BWF f.eps 0 (1 - f.eps) (1/4) ∧ 1 - 2 * f.eps ≤ 1 - f.eps ∧ 1 - 
   have he := XQ.eps_pos f
   have := eps_lt f
   exact ⟨⟨he.le, le_refl _, by linarith, by ring, by norm_num, by norm_num⟩, by linarith, by linarith⟩
+
+/-- the hypotheses of `C13_both_vacuous_band_base_rate_cfuse` / `_wfuse` hold for a binary32 pair with
+    DIFFERENT base rates `1/4`, `3/4`, the left operand strictly inside the band and not vacuous
+    (`b₁ = ε > 0`, `u₁ = 1-ε < 1`), the right operand vacuous; the common fused base rate is `1/2` -/
+example :
+    BWF Fmt.f32.eps 0 (1 - Fmt.f32.eps) (1/4) ∧ BWF 0 0 1 (3/4) ∧
+    1 - 2 * Fmt.f32.eps ≤ 1 - Fmt.f32.eps ∧ 1 - 2 * Fmt.f32.eps ≤ (1 : ℚ) ∧
+    1 - Fmt.f32.eps < 1 ∧ (0 : ℚ) < Fmt.f32.eps ∧ (1/4 : ℚ) ≠ 3/4 ∧ ((1/4 : ℚ) + 3/4) / 2 = 1/2 := by
+  have he := XQ.eps_pos Fmt.f32
+  have := eps_lt Fmt.f32
+  exact ⟨⟨he.le, le_refl _, by linarith, by ring, by norm_num, by norm_num⟩,
+    by constructor <;> norm_num, by linarith, by linarith, by linarith, he, by norm_num, by norm_num⟩
+
+/-- … and the two theorems applied to that instance (binary32): both families return the base rate `1/2` -/
+example :
+    (∃ b d u b' d' u' : ℚ,
+      BOp.cfuse (bop Fmt.f32.eps 0 (1 - Fmt.f32.eps) (1/4) : BOp (XQ Fmt.f32)) (bop 0 0 1 (3/4))
+        = .ok (bop b d u (1/2)) ∧
+      BOp.ofOpinion (fuse .acm false
+          (BOp.toOpinion (bop Fmt.f32.eps 0 (1 - Fmt.f32.eps) (1/4) : BOp (XQ Fmt.f32)))
+          (BOp.toOpinion (bop 0 0 1 (3/4) : BOp (XQ Fmt.f32)))) = bop b' d' u' (1/2)) ∧
+    BOp.wfuse (bop Fmt.f32.eps 0 (1 - Fmt.f32.eps) (1/4) : BOp (XQ Fmt.f32)) (bop 0 0 1 (3/4))
+        (XQ.fin (1/2)) = .ok (bop 0 0 1 (1/2)) := by
+  have he := XQ.eps_pos Fmt.f32
+  have := eps_lt Fmt.f32
+  have h₁ : BWF Fmt.f32.eps 0 (1 - Fmt.f32.eps) (1/4) :=
+    ⟨he.le, le_refl _, by linarith, by ring, by norm_num, by norm_num⟩
+  have h₂ : BWF 0 0 1 (3/4) := by constructor <;> norm_num
+  have e : ((1/4 : ℚ) + 3/4) / 2 = 1/2 := by norm_num
+  obtain ⟨b, d, u, b', d', u', hc, hm, -⟩ :=
+    C13_both_vacuous_band_base_rate_cfuse (f := Fmt.f32) h₁ h₂ (by linarith) (by linarith)
+  have hw := (C13_both_vacuous_band_base_rate_wfuse (f := Fmt.f32) h₁ h₂ (by linarith) (by linarith)
+    (XQ.fin (1/2))).1
+  rw [e] at hc hm hw
+  exact ⟨⟨b, d, u, b', d', u', hc, hm⟩, hw⟩
 
 /-- an opinion satisfying the side condition of `C13_roundtrip_multinomial` (any scalar type) -/
 example {α : Type} [Scalar α] (b d u a : α) :
